@@ -526,6 +526,65 @@ fn corpus_check(case: &CorpusCase, obs: &mut Obs) -> PropResult {
 	check_jar(class_bytes, &models, &case.map_stream, case.input_form, obs)
 }
 
+/// Jars whose classes carry methods of 30-65 KB: the geometry classes of C02 (jumps laid out around +-32767 that the writer
+/// has to widen, which takes it a second attempt at the Code attribute) and the 83 KB class javac compiled for the corpus.
+#[derive(Clone, Debug, Serialize, Deserialize)]
+pub struct LargeCase {
+	pub geo: crate::props::c02::GeoCase,
+	/// 0 geometry class only, 1 with the corpus class, 2 corpus class only
+	pub with: u8,
+	pub map_stream: Vec<u8>,
+	pub input_form: u8,
+}
+
+fn corpus_big() -> &'static Vec<(Vec<u8>, CClass)> {
+	static C: std::sync::OnceLock<Vec<(Vec<u8>, CClass)>> = std::sync::OnceLock::new();
+	C.get_or_init(|| crate::corpus::load().into_iter().filter(|(n, b)| n.starts_with("r17g/") && b.len() >= 20_000).filter_map(|(_, b)| crate::classfile::decode::decode(&b).ok().map(|m| (b, m))).collect())
+}
+
+fn large_check(case: &LargeCase, obs: &mut Obs) -> PropResult {
+	let mut class_bytes = Vec::new();
+	let mut models = Vec::new();
+	if case.with != 2 {
+		for bump in 0..64u8 {
+			let (model, ch) = crate::props::c02::geo_model(&case.geo, bump);
+			match encode(&model, &ch) {
+				Ok(e) => {
+					class_bytes.push((model.name.clone(), e.bytes));
+					models.push(model);
+					break;
+				}
+				Err(crate::classfile::encode::EncodeError::BranchTooFar { .. }) | Err(crate::classfile::encode::EncodeError::CodeTooLarge(_)) => continue,
+				Err(e) => return Err(format!("harness: encoder failed: {e:?}")),
+			}
+		}
+	}
+	if case.with != 0 || class_bytes.is_empty() {
+		for (b, m) in corpus_big() {
+			if !models.iter().any(|x: &CClass| x.name == m.name) {
+				class_bytes.push((m.name.clone(), b.clone()));
+				models.push(m.clone());
+			}
+		}
+	}
+	obs.label(format!("geometry_class={},corpus_class={}", case.with != 2 && models.iter().any(|m| m.methods.iter().any(|x| x.name == "geo")), models.len() > 1 || case.with == 2));
+	obs.label(format!("template{}", case.geo.template));
+	// a method whose worst-case encoding (every ldc as ldc_w, every jump widened) exceeds 65535 bytes may be refused by the
+	// writer (C02 decides where exactly); those jars are left out here
+	let fits = models.iter().all(|m| m.methods.iter().all(|x| x.attrs.iter().all(|a| if let Attr::Code(c) = a { crate::props::c02::worst_case_size(c) <= 65535 } else { true })));
+	obs.nontrivial_if(true);
+	match check_jar(class_bytes, &models, &case.map_stream, case.input_form, obs) {
+		Err(e) if !fits && e.starts_with("writing the jar failed") => {
+			obs.label("method_may_not_fit:writer_refused(left_to_C02)");
+			Ok(())
+		}
+		other => {
+			obs.label_if(!fits, "method_may_not_fit:written");
+			other
+		}
+	}
+}
+
 fn check_jar(class_bytes: Vec<(String, Vec<u8>)>, models: &[CClass], map_stream: &[u8], input_form: u8, obs: &mut Obs) -> PropResult {
 	struct CaseView<'a> {
 		map_stream: &'a [u8],
@@ -655,6 +714,21 @@ fn check_jar(class_bytes: Vec<(String, Vec<u8>)>, models: &[CClass], map_stream:
 		};
 		drop_if(&mut want, &got, "C07-record-components-dropped", &|a| matches!(a, Attr::Record(_)), obs);
 		drop_if(&mut want, &got, "C07-module-dropped", &|a| matches!(a, Attr::Module(_) | Attr::ModulePackages(_) | Attr::ModuleMainClass(_)), obs);
+		if got != want && want.methods.len() == got.methods.len() {
+			// a jump that no longer fits 16 bits may come back as goto_w / jsr_w or as an inverted `if` over a goto_w (C02's
+			// alignment: every target, range and table entry is compared through the instruction correspondence)
+			for (mw, mg) in want.methods.iter_mut().zip(got.methods.iter()) {
+				let cg = mg.attrs.iter().find_map(|a| if let Attr::Code(c) = a { Some(c) } else { None });
+				let cw = mw.attrs.iter_mut().find_map(|a| if let Attr::Code(c) = a { Some(c) } else { None });
+				if let (Some(cw), Some(cg)) = (cw, cg) {
+					if cw.insns.len() != cg.insns.len() {
+						if let Ok((aligned, _)) = crate::props::c02::align_code(cw, cg) {
+							*cw = aligned;
+						}
+					}
+				}
+			}
+		}
 		if got != want {
 			return Err(format!("{what}: class {old} (now {name}) is not the renamed input: (reference renaming vs result) {}", first_diff(&want, &got)));
 		}
@@ -737,6 +811,12 @@ pub fn run(ctx: &mut Ctx) {
 		ctx.tier.pick(800, 8_000),
 		|| (any::<u16>(), proptest::collection::vec(any::<u8>(), 4..40), 0u8..3).prop_map(|(depth, map_stream, input_form)| DeepCase { depth, map_stream, input_form }),
 		deep_check,
+	);
+	ctx.run_sub(
+		"large_methods",
+		ctx.tier.pick(320, 6_000),
+		|| (crate::props::c02::geo_strategy(), prop_oneof![3 => Just(0u8), 1 => Just(1u8), 1 => Just(2u8)], proptest::collection::vec(any::<u8>(), 4..60), 0u8..3).prop_map(|(geo, with, map_stream, input_form)| LargeCase { geo, with, map_stream, input_form }),
+		large_check,
 	);
 	ctx.run_sub(
 		"corpus_javac",
